@@ -246,13 +246,27 @@ def run_target(us, t, workdir, tier, log):
 
 # --------------------------------------------------------------------------- witness
 def witness(us, t, workdir, obligation, log):
-    """re-run one failed obligation with --trace; returns dict (inputs by name, raw tail)"""
+    """re-run one failed obligation with --trace; returns dict (inputs by name, raw tail).
+    Two passes (DESIGN 5.2): first in a small world (-DV_MAXSZ=48: every size bound of the specs shrinks), so that
+    the counterexample is replayable; if the obligation does not fail there, the unrestricted trace is used."""
     base = os.path.join(workdir, '%s__%s' % (us.name, t.id))
     gb = base + '.b.gb'
     if not os.path.exists(gb): return {'error': 'no binary'}
-    cmd = cbmc_cmd(t, gb, t.smt or t.sat) + ['--property', obligation, '--trace', '--json-ui']
-    rc, out, secs = run(cmd, 600)
-    info = {'cmd': ' '.join(cmd), 'rc': rc, 'secs': round(secs, 1), 'inputs': {}, 'failed': None}
+    cmd = None; out = ''; rc = 0; secs = 0
+    try:
+        import copy
+        t2 = copy.copy(t); t2.id = t.id + '.small'
+        gb2, _, _ = build_target(us, t2, workdir, extra_defines=['V_MAXSZ=((size_t)48)', 'VERIF_SMALL=1'])
+        cmd = cbmc_cmd(t, gb2, t.smt or t.sat) + ['--property', obligation, '--trace', '--json-ui']
+        rc, out, secs = run(cmd, 300)
+        if '"FAILURE"' not in out: cmd = None
+    except Undecided:
+        cmd = None
+    small = cmd is not None
+    if cmd is None:
+        cmd = cbmc_cmd(t, gb, t.smt or t.sat) + ['--property', obligation, '--trace', '--json-ui']
+        rc, out, secs = run(cmd, 600)
+    info = {'cmd': ' '.join(cmd), 'rc': rc, 'secs': round(secs, 1), 'inputs': {}, 'failed': None, 'small_world': small}
     try:
         blocks = json.loads(out)
     except Exception:
